@@ -2,11 +2,12 @@
 # Builds .build/owcheck-sched: owcheck compiled with -race against the REWRITTEN working tree of /repo
 # (go statements / channels / sync / Sleep / Exit -> vrt), via go build -overlay. /repo is not touched.
 cd /verif || exit 2
+TAG=${1:-sched}
 . ./scripts/env.sh
-mkdir -p .build/bin .build/rw/sched
+mkdir -p .build/bin .build/rw/sched-$TAG
 cp /repo/go.sum ./go.sum 2>/dev/null
-go build -o .build/bin/rewrite ./tools/rewrite || exit 2
-rm -rf .build/rw/sched && mkdir -p .build/rw/sched
+go build -o .build/bin/rewrite-$TAG ./tools/rewrite || exit 2
+rm -rf .build/rw/sched-$TAG && mkdir -p .build/rw/sched-$TAG
 FILES="$(ls /repo/models/*/generated_*.go) /repo/cmd/ow-sim/main.go /repo/cmd/ow-sim/running.go /repo/io/hdf5_util.go"
-.build/bin/rewrite -out .build/rw/sched $FILES || exit 2
-go build -ldflags '-X owverif.local/verif/vrt.Instrumented=yes' -race -overlay .build/rw/sched/overlay.json -o .build/owcheck-sched ./cmd/owcheck || { echo "instrumented build failed" >&2; exit 2; }
+.build/bin/rewrite-$TAG -out .build/rw/sched-$TAG $FILES || exit 2
+go build -ldflags '-X owverif.local/verif/vrt.Instrumented=yes' -race -overlay .build/rw/sched-$TAG/overlay.json -o .build/owcheck-sched-$TAG ./cmd/owcheck || { echo "instrumented build failed" >&2; exit 2; }
